@@ -284,15 +284,20 @@ func (bkt *Bucket) close() {
 		return
 	}
 
+	verifPoint("close:after-flush")
 	bkt.hints.dumpCollisions()
+	verifPoint("close:after-collisions")
 	bkt.hints.close()
+	verifPoint("close:after-hints")
 	bkt.dumpHtree()
+	verifPoint("close:after-tree")
 }
 
 func (bkt *Bucket) dumpHtree() {
 	hintID := bkt.hints.maxDumpedHintID
 	if bkt.TreeID.isLarger(hintID.Chunk, hintID.Split) {
 		bkt.removeHtree()
+		verifPoint("tree:after-remove-old")
 		bkt.TreeID = hintID
 		bkt.htree.dump(bkt.getHtreePath(bkt.TreeID.Chunk, bkt.TreeID.Split))
 	}
@@ -397,7 +402,9 @@ func (bkt *Bucket) set(ki *KeyInfo, v *Payload) error {
 	if err != nil {
 		return err
 	}
+	verifPoint("set:after-append")
 	bkt.htree.set(ki, &v.Meta, pos)
+	verifPoint("set:after-tree")
 	bkt.hints.set(ki, &v.Meta, pos, v.RecSize, "set")
 	return nil
 }
